@@ -34,7 +34,7 @@ def evalbatch(path, cwd, timeout=3000, ok=lambda out: True):
     res = None
     for attempt in range(4):
         try:
-            p = subprocess.run([exe, path], cwd=cwd, env=build.env_for(VARIANT), stdout=subprocess.PIPE, stderr=subprocess.STDOUT,
+            p = subprocess.run([exe, path], cwd=cwd, env=build.env_for(VARIANT), stdout=subprocess.PIPE, stderr=subprocess.STDOUT, preexec_fn=common.die_with_parent,
                                stdin=subprocess.DEVNULL, timeout=timeout)
             res = common.Result(p.returncode, p.stdout.decode("utf-8", "replace"))
         except subprocess.TimeoutExpired as ex:
